@@ -48,6 +48,12 @@ theorem initial_state_untouched (c : Cfg K S σ) (u0 : S) (trs : List (Tracker K
 theorem progress (c : Cfg K S σ) (st : LState K S σ) :
     st.steps + 1 ≤ (advance c st).steps := advance_progress c st
 
+/-- **no_overshoot**: the run never takes more steps than `⌈T/dt - eps⌉` (so it never passes
+`t_end` by a full step), on every path and for every tracker list and schedule -/
+theorem no_overshoot (c : Cfg K S σ) (hdt : 0 < c.dt) (he1 : c.eps < 1 / 2) (u0 : S)
+    (trs : List (Tracker K S σ)) (fuel : Nat) :
+    (runFuel c u0 trs fuel).steps ≤ finalStepCount c := run_no_overshoot c hdt he1 u0 trs fuel
+
 /-- termination: the fuel bound is a theorem -/
 theorem loop_terminates (c : Cfg K S σ) (hdt : 0 < c.dt) (he1 : c.eps < 1 / 2) (u0 : S) :
     ∀ (fuel : Nat) (st : LState K S σ), Bounded c u0 st → finalStepCount c - st.steps < fuel →
